@@ -399,8 +399,17 @@ class OpenFlowNexus (EventMixin):
 
   def _connect (self, con):
     self._connections[con.dpid] = con
-  def _disconnect (self, dpid):
+  def _disconnect (self, dpid, con = None):
+    """
+    Unregister the connection for dpid
+
+    If con is given, the entry is only removed if it is that connection.
+    A switch may reconnect before its old connection is torn down; the
+    old connection going away must not unregister the new one.
+    """
     if dpid in self._connections:
+      if con is not None and self._connections[dpid] is not con:
+        return False
       del self._connections[dpid]
       return True
     return False
